@@ -70,7 +70,7 @@ class RDMol2StereoMolGraph:
     lone_pair_stereo: bool = True
     resonance: bool = True
     _max_resonance_structures: int = 100
-    _min_trans_ring_size: int = 7
+    _min_trans_ring_size: int = 8
 
     def __call__(self, rdmol: Chem.Mol) -> StereoMolGraph:
         smg = self.smg_from_rdmol(rdmol)
@@ -352,7 +352,9 @@ class RDMol2StereoMolGraph:
                     for r in Chem.GetSymmSSSR(rdmol)
                     if begin_idx in r and end_idx in r
                 ]
-                rings.sort(key=lambda x: (x[0], x[1]), reverse=True)
+                # aromatic rings first, then the smallest ring: it is the one
+                # that forces the double bond to be cis
+                rings.sort(key=lambda x: (not x[0], x[1]))
 
                 if rings and (
                     rings[0][0] is True  # aromatic rings always cis
